@@ -808,7 +808,7 @@ Outcome run_case_forked(const Case &c) {
     close(pfd[0]);
     g_out = pfd[1];
     dup2(pfd[1], 2);
-    alarm(30);
+    alarm(150);   // wall-clock watchdog (inconclusive); the CPU-time verdict below has to be able to come first on a loaded machine
     // a case takes milliseconds (200000 scheduling steps about a second): a child that has burnt 12 s of its own CPU time is a thread
     // spinning inside a library call without ever reaching a scheduling point - with the baton in its hand nobody else can run, so the
     // call never returns.  CPU time of the process (ITIMER_VIRTUAL), not wall time: load cannot trigger it.
